@@ -14,10 +14,11 @@ git -C /repo worktree add -q --detach "$WT" HEAD || exit 2
 DIR=$(python3 -c "import json;print(json.load(open('$M/meta.json'))['demo'].get('dir','.'))")
 KIND=$(python3 -c "import json;print(json.load(open('$M/meta.json'))['demo'].get('kind','test'))")
 TESTS=$(grep -ho 'func Test[A-Za-z0-9_]*' "$M"/demo_test.go 2>/dev/null | sed 's/func //' | paste -sd'|')
+RACE=""; grep -q -- '-race' "$M/meta.json" && RACE="-race"   # demonstrations of data races ask for the race detector
 rundemo() {
   if [ "$KIND" = test ]; then
     cp "$M/demo_test.go" "$WT/$DIR/zz_demo_test.go"
-    (cd "$WT" && timeout 300 go test -vet=off -count=1 -run "^($TESTS)\$" "./$DIR/" >"$WT/demo.log" 2>&1); rc=$?
+    (cd "$WT" && timeout 600 go test $RACE -vet=off -count=1 -run "^($TESTS)\$" "./$DIR/" >"$WT/demo.log" 2>&1); rc=$?
     rm -f "$WT/$DIR/zz_demo_test.go"
   else
     mkdir -p "$WT/cmd/zzdemo" && cp "$M"/main.go "$WT/cmd/zzdemo/main.go"
